@@ -317,6 +317,22 @@ pub fn run(ctx: &Ctx) -> CheckResult {
                 }
             }
         }
+        // a few runs of several thousand steps (periodic maintenance code - "rebuild every 2048 updates" -
+        // only runs there)
+        {
+            let long_set = [Regime::Osc, Regime::Tick, Regime::Stair, Regime::Gap];
+            let long_len = if th { 6000 } else { 2600 };
+            for ord in orderings(&long_set, 2) {
+                for &n in &[2usize, 14] {
+                    for k in [Kind::Rsi, Kind::FastStoch, Kind::Er] {
+                        mjobs.push((Cfg::p1(k, n), ord.clone(), long_len, false, false));
+                    }
+                    mjobs.push((Cfg::p2(Kind::SlowStoch, n, 3), ord.clone(), long_len, true, false));
+                    mjobs.push((Cfg::p1(Kind::Mfi, n), ord.clone(), long_len, true, true));
+                    mjobs.push((Cfg::p1(Kind::Mfi, n), ord.clone(), long_len, true, false));
+                }
+            }
+        }
         res.extra.insert("macro_runs".into(), json!(mjobs.len()));
         let chunks: Vec<&[(Cfg, Vec<Regime>, usize, bool, bool)]> = mjobs.chunks(16).collect();
         let outs = par_run(ctx, &chunks, |_, chunk| {
@@ -336,7 +352,7 @@ pub fn run(ctx: &Ctx) -> CheckResult {
         res.absorb(merge_jobs(outs));
     }
     res.rule = "case = (configuration, history); the real output is required to lie in [0,100] ([0,1] for ER) with 1e-9 absolute slack (MFI: 100*tau(t)*c, applied when c<=1000) at every step whose reference denominator is non-zero; non-trivial = output at or within 1e-6 of a range boundary".into();
-    res.bounds = format!("seq(S_pos+reset,{d}), seq(S_int,{}) and seq(S_wide={{1,3,1e9,1e17,1e-9}}, same depth), seq(S_huge={{1e307,7e307,2e307,4e307}}) seq(S_ulp = neighbours 1 and 4 ulps apart) and seq(S_subnormal = {{3,4,5,8}} x 4.9e-324 and 2.2e-308) for RSI/FAST_STOCH/ER, seq(B_grid+reset,{db}) FAST_STOCH, seq(B_vol,{dv}) and seq(B_mfi+reset,7/9) MFI, SLOW_STOCH (n x {{1,2,3}}) at reduced depth, periods 1..5; macro-step runs: all 8^3 orderings of {{up,down,tick,osc,gap,flat,outlier(1e9x),stair}} segments, scalar and bar paths, volumes spanning 1e-3..1e9", d - 1);
+    res.bounds = format!("seq(S_pos+reset,{d}), seq(S_int,{}) and seq(S_wide={{1,3,1e9,1e17,1e-9}}, same depth), seq(S_huge={{1e307,7e307,2e307,4e307}}) seq(S_ulp = neighbours 1 and 4 ulps apart) and seq(S_subnormal = {{3,4,5,8}} x 4.9e-324 and 2.2e-308) for RSI/FAST_STOCH/ER, seq(B_grid+reset,{db}) FAST_STOCH, seq(B_vol,{dv}) and seq(B_mfi+reset,7/9) MFI, SLOW_STOCH (n x {{1,2,3}}) at reduced depth, periods 1..5; macro-step runs: all 8^3 orderings of {{up,down,tick,osc,gap,flat,outlier(1e9x),stair}} segments, scalar and bar paths, volumes spanning 1e-3..1e9; 16 orderings of 2 segments of 2600/6000 steps for periods 2 and 14", d - 1);
     res.assumptions = vec!["RSI denominators below 1e-280 (fully decayed averages) count as zero: such windows are C08's subject".into()];
     res
 }
